@@ -688,6 +688,20 @@ class Engine:
             self.model = self.solver.model()
         return self.model
 
+    def interior_model(self):
+        """A model of the path condition in which every non-strict order fact holds strictly whenever the path allows it
+        (used for the float64 validation run: a tie exactly on a branch boundary is where float rounding flips a branch)."""
+        strict = []
+        for key, mask in self.facts.items():
+            if mask in (3, 6):
+                strict.append(to_z3(dict(key)) != 0)
+        if not strict:
+            return self.get_model(), True
+        r = self._check(*strict)
+        if r == z3.sat:
+            return self.solver.model(), True
+        return self.get_model(), False
+
     def _add(self, t):
         self.solver.add(t)
         self.npc += 1
